@@ -416,6 +416,14 @@ def is_repeat_with(ro: RepeatOperation, previous_st: Optional[Statement]):
             if (not isinstance(step, ConstantValue) 
                 or step.name not in ('1', '-1')):
                 return False
+            
+            # 'to' counts up while v <= end, 'down to' counts down while v >= end
+            if step.name == '1':
+                expected = BinaryOperationNames.LTE.value
+            else:
+                expected = BinaryOperationNames.GTE.value
+            if cond.name != expected:
+                return False
     
             return True
     
